@@ -1077,6 +1077,18 @@ def r_pair(ctx):
                 if not (tg[0] == 'sub' and tg[1][0] == 'sub') or tg[1][1][0] != 'v' or tg[1][1][1] == 'latter_map':
                     continue
                 conds_ = ctx.conds(g, nd)
+                # every key contributes its terms: a store that is only reached when the key has a certain NUMBER of successors
+                # drops the contributions of the other keys (a single arc still has insertion / deletion neighbours)
+                for a_, p_ in conds_:
+                    cnt = [x for x in walk_term(a_) if is_call(x, 'builtins.len') and len(x[2]) == 1 and x[2][0][0] == 'sub' and
+                           x[2][0][1][0] == 'v' and x[2][0][1][1] == 'latter_map']
+                    if a_[0] == 'cmp' and cnt and any(a == f_ and p for f_ in (ins, dele) for a, p in conds_):
+                        run.refute('R-PAIR', g, 'every-key-contributes', nd.lineno,
+                                   'the %s score term is only added when %s is %s: keys with another number of successors contribute '
+                                   'nothing to that term, so their arcs score too low and an arc that is not a maximum is removed'
+                                   % ('insertion' if any(a == ins and p for a, p in conds_) else 'deletion', show(a_)[:50], p_),
+                                   inputs='graphs with a vertex of out-degree 1 whose arc holds the maximum')
+                        break
                 for flag, other, nm in ((ins, dele, 'insertion'), (dele, ins, 'deletion')):
                     if any(a == flag and p for a, p in conds_):
                         gated[flag] += 1
